@@ -46,6 +46,12 @@ CHECKS = {
  "C20": ("exploration", "differential monitor over layout variants (AST rendering and bytecode equality) and invariant monitor over reported error positions for token-level mutations",
          "Generated programs are re-rendered with spaces, block comments, line comments, blank lines, CRLF and accepted line breaks at every token gap (many-gap and single-gap variants); parse tree rendering and compiled bytes must not change. Token-level mutations must yield errors whose line/column exist and whose quoted line is verbatim, and whose rendering never panics or hangs.",
          "Where line breaks are accepted is taken from the parser (after , ( [ { binary operators | and .); compile errors without a position are counted, not flagged.", "DESIGN.md §5 C20"),
+ "C04": ("exploration", "emitted-code invariant (abstract interpretation of every compiled code object's CFG with pinned opcode stack effects) + operand-stack depth sampled at a VM hook between all statements + scaled loop bounds (10 / 3000 / 100000) against the reference interpreter",
+         "For every generated program all control-flow paths of its bytecode (also unexecuted ones) have consistent, non-negative stack heights with exactly one value at the end of main; at run time the depth relative to the frame base is constant per statement boundary over all iterations and recursion depths and a finished run leaves sp==0; loop-dominated programs give model-equal results for bounds up to 100x the stack capacity.",
+         "Opcode stack effects are pinned from vm.eval; hooks VerifSP/VerifFrameBaseSP. 'All compiled programs' is sampled by the generator.", "DESIGN.md §5 C04"),
+ "C18": ("exploration", "differential history monitor: the REPL's one-compiler/one-VM protocol driven piece by piece against the reference interpreter run incrementally, over partitions of generated programs with rejected and failing pieces inserted",
+         "For each generated program all (short programs) or sampled partitions into pieces, with rejected pieces (syntax error, undefined name, const reassignment, duplicate function) and naturally failing pieces, agree with the incrementally run reference interpreter on per-piece status, value, error class, output and on all final globals; long sessions of thousands of pieces are included.",
+         "The protocol is driven through public calls in the order of cmd/risor/repl getEvaluator (that closure lives in a separate module).", "DESIGN.md §5 C18"),
 }
 
 NOT_YET = {}
